@@ -25,6 +25,12 @@ def registered():
 
 
 def apply(m, root):
+    if m.get("patch"):
+        # a stored multi-edit refactor (selftest/refactors/<name>/patch.diff), applied like a contributor's patch
+        r = subprocess.run(["patch", "-p1", "-s", "-i", m["patch"]], cwd=root, stdout=subprocess.PIPE, stderr=subprocess.STDOUT, text=True)
+        if r.returncode != 0:
+            raise SystemExit("refactor %s: patch does not apply to /repo: %s" % (m["name"], r.stdout[-300:]))
+        return
     for ed in m["edits"]:
         p = os.path.join(root, ed["file"])
         s = open(p).read()
@@ -39,7 +45,13 @@ def main():
     regs = registered()
     results = []
     rules_fired = {}
-    for m in MUTANTS:
+    refdir = os.path.join(HERE, "refactors")
+    refs = []
+    for nm in sorted(os.listdir(refdir)) if os.path.isdir(refdir) else []:
+        pf = os.path.join(refdir, nm, "patch.diff")
+        if os.path.exists(pf):
+            refs.append({"name": "r_" + nm, "kind": "preserving", "patch": pf})
+    for m in MUTANTS + refs:
         if sel and not any(x in m["name"] for x in sel):
             continue
         root = "/tmp/eps_selftest/" + m["name"]
